@@ -589,3 +589,120 @@ def display_override(ctx):
     else:
         ctx.inconclusive.append("vacuity: project never pruned")
     ctx.sample({"paths": E.paths})
+
+
+# ---------------------------------------------------------------------------------------
+# O7: a template that builds an href from the URL of an entity it reaches THROUGH A REFERENCE (proc.module, x.procedure, ...) rather
+# than through one of the pruned lists does so only under a guard that implies `<that entity>.visible` (unselected entities have no page)
+# ---------------------------------------------------------------------------------------
+SUBMOD_PROJECT = {"shapes.f90": [
+    "module shapes", "  !! Shapes module", "  implicit none", "  private", "  public :: area, perimeter", "  interface",
+    "    module function area(r) result(a)", "      !! Area interface", "      real, intent(in) :: r", "      real :: a", "    end function area",
+    "    module subroutine perimeter(r, p)", "      !! Perimeter interface", "      real, intent(in) :: r", "      real, intent(out) :: p",
+    "    end subroutine perimeter", "  end interface", "end module shapes", "",
+    "submodule (shapes) shapes_impl", "  !! Implementation submodule", "  implicit none", "contains",
+    "  module function area(r) result(a)", "    !! Area implementation", "    real, intent(in) :: r", "    real :: a", "    a = 3.14 * r * r", "  end function area",
+    "  module procedure perimeter", "    !! Perimeter implementation", "    p = 6.28 * r", "  end procedure perimeter", "end submodule shapes_impl"]}
+
+
+def _reference_url_sites():
+    """[(template, line, expression text, guard, visible-variable)] for every `<chain>.get_url()` whose chain has two or more parts"""
+    import os
+    import glob
+    import ford.output as out
+    from jinja2 import nodes
+
+    sites = []
+    tdir = os.path.join(os.path.dirname(out.__file__), "templates")
+    for path in sorted(glob.glob(os.path.join(tdir, "*.html"))):
+        src = open(path).read()
+        tree = out.env.parse(src)
+        atoms = {}
+
+        def key(e):
+            return repr(e)
+
+        def chain(e):
+            parts = []
+            while isinstance(e, nodes.Getattr):
+                parts.append(e.attr)
+                e = e.node
+            if isinstance(e, nodes.Name):
+                parts.append(e.name)
+                return list(reversed(parts))
+            return None
+
+        def truth(e):
+            if isinstance(e, nodes.Not):
+                return z3.Not(truth(e.node))
+            if isinstance(e, nodes.And):
+                return z3.And(truth(e.left), truth(e.right))
+            if isinstance(e, nodes.Or):
+                return z3.Or(truth(e.left), truth(e.right))
+            k = key(e)
+            if k not in atoms:
+                atoms[k] = z3.Bool(f"{os.path.basename(path)}:atom{len(atoms)}")
+            return atoms[k]
+
+        def visit(n, conds):
+            if isinstance(n, nodes.If):
+                c = truth(n.test)
+                for b in n.body:
+                    visit(b, conds + [c])
+                neg = [z3.Not(c)]
+                for el in n.elif_:
+                    ce = truth(el.test)
+                    for b in el.body:
+                        visit(b, conds + neg + [ce])
+                    neg.append(z3.Not(ce))
+                for b in n.else_:
+                    visit(b, conds + neg)
+                return
+            if isinstance(n, nodes.CondExpr):
+                c = truth(n.test)
+                visit(n.expr1, conds + [c])
+                if n.expr2 is not None:
+                    visit(n.expr2, conds + [z3.Not(c)])
+                return
+            if isinstance(n, nodes.Call) and isinstance(n.node, nodes.Getattr) and n.node.attr == "get_url":
+                ch = chain(n.node.node)
+                if ch is not None and len(ch) >= 2:
+                    vis = truth(nodes.Getattr(n.node.node, "visible", "load"))
+                    sites.append((os.path.basename(path), n.lineno, ".".join(ch) + ".get_url()", z3.And(*conds) if conds else z3.BoolVal(True), vis))
+            for c in n.iter_child_nodes():
+                visit(c, conds)
+
+        visit(tree, [])
+    return sites
+
+
+def replay_reference_url(w):
+    import shutil
+    from fv import fordrun
+    files = {k: "\n".join(v) + "\n" for k, v in SUBMOD_PROJECT.items()}
+    d, outdir, rc, log = fordrun.run_ford(files, {"search": "false", "graph": "false"})
+    try:
+        broken = fordrun.broken_links(outdir) if rc == 0 else [("ford failed", log[-300:])]
+    finally:
+        shutil.rmtree(d, ignore_errors=True)
+    return bool(broken), {"project": "module with separate module procedures implemented in a submodule, default display (the implementations are not selected)",
+                          "links to pages that are not generated": broken[:6]}
+
+
+@obligation("C05", "O7.reference-urls-guarded-by-visible", engine="JX", timeout=300)
+def reference_urls(ctx):
+    """every template expression `<a>.<b>....get_url()` (the URL of an entity reached through a reference, not through a pruned list):
+    its guard implies `<a>.<b>....visible`, for every truthiness of the other operands"""
+    sites = _reference_url_sites()
+    ctx.encode_text("templates/*.html get_url sites", "\n".join(f"{t}:{l} {e}" for t, l, e, _, _ in sites), "jinja-template")
+    ctx.bounds.update({"sites": len(sites), "operands": "every truthiness"})
+    if not sites:
+        ctx.inconclusive.append("no `<chain>.get_url()` site found in the templates: obligation needs review")
+        return
+    for tname, line, expr, guard, vis in sites:
+        ctx.twin(f"{tname}:{line} {expr} can be reached", [guard])
+        r, m = ctx.solve(f"{tname}:{line}: {expr} used ⇒ entity visible", [guard, z3.Not(vis)])
+        if r == "sat":
+            ctx.report(f"{tname}:{line}: the URL of an entity reached through `{expr[:-10]}` is used although the entity may be unselected",
+                       {"site": f"{tname}:{line}", "expression": expr}, replay_reference_url)
+    ctx.sample({"sites": [f"{t}:{l} {e}" for t, l, e, _, _ in sites]})
